@@ -50,17 +50,22 @@ func respell(ski string, how int) string {
 	return ski
 }
 
-func genC15(r *vc.Rand) *C15Scn {
+// c15FirstOps: the operation applied first in the prepared hub state; together with the three states this grid
+// is walked systematically (scenario index), the spelling and everything after the first operation is seeded
+var c15FirstOps = []string{"register", "unregister", "disconnect", "cancel", "detail", "lookup", "lookup-fresh", "peer-register"}
+
+func genC15(r *vc.Rand, idx int) *C15Scn {
 	sc := &C15Scn{}
 	// bring the hub into one of the states first
-	switch r.Intn(3) {
+	switch idx % 3 {
 	case 0: // completed
 		sc.Ops = append(sc.Ops, c15Op{Kind: "peer-register"}, c15Op{Kind: "register", Spell: r.Intn(5)})
 	case 1: // pending (peer wants to pair, we did nothing yet)
 		sc.Ops = append(sc.Ops, c15Op{Kind: "peer-register"})
 	case 2: // no connection
 	}
-	n := r.Range(1, 6)
+	sc.Ops = append(sc.Ops, c15Op{Kind: c15FirstOps[(idx/3)%len(c15FirstOps)], Spell: 1 + (idx/(3*len(c15FirstOps))+idx)%4})
+	n := r.Range(0, 5)
 	for i := 0; i < n; i++ {
 		sc.Ops = append(sc.Ops, c15Op{Kind: vc.Pick(r, []string{"register", "register", "unregister", "unregister", "disconnect", "disconnect", "cancel", "cancel", "detail", "lookup", "lookup-fresh", "peer-register"}), Spell: r.Range(1, 4)})
 	}
